@@ -42,7 +42,9 @@ def sub_layout(o):
     }
 
 
-def check_model(rep, drv, gen, rng, m, text, c, with_jax):
+def check_model(rep, drv, gen, rng, m, text, c, with_jax, direct_only=False):
+    # direct_only: names the printers rename (Python keywords: lambda -> lambda_) - the skeleton validators are fed the model's own
+    # names, so such a model is compared by values only
     issue = family.mirror_issue(c, text)
     full_lay = c.impl_layout()
     ode = c.ode
@@ -87,7 +89,7 @@ def check_model(rep, drv, gen, rng, m, text, c, with_jax):
             if want != lay["missing"]:
                 fail(f"{k} of {cname!r}: missing variables {lay['missing']}, used-but-undefined names are {want}", component=cname)
         # ---- mirror
-        if issue is None:
+        if issue is None and not direct_only:
             for k in ("to_ode", "minus"):
                 mr = drv.ask(["split", k, core.Q(cname)])
                 mm = [(f, lays[k][f], mr.get(f)) for f in lays[k] if mr.get(f) != lays[k][f]]
@@ -112,7 +114,7 @@ def check_model(rep, drv, gen, rng, m, text, c, with_jax):
             if mods is None:
                 continue
             # validators on the halves
-            if issue is None and structural is None:
+            if issue is None and structural is None and not direct_only:
                 for k in ("to_ode", "minus"):
                     drv.ask(["split", k, core.Q(cname)])
                     lay = lays[k]
@@ -185,6 +187,25 @@ def check_model(rep, drv, gen, rng, m, text, c, with_jax):
                                 if not close(float(xv[i]), allv[nme], S):
                                     fail(f"{k} of {cname!r} (remove_unused={ru}): missing_values[{i}] for {nme} = {xv[i]!r}, the full model has {allv[nme]!r}",
                                          component=cname, inputs=pt, remove_unused=ru, requested=req)
+                    # the jax module of the same half (on a subsample of the models): rhs, monitored values and the Euler step against numpy's
+                    if with_jax and not ru and not failing:
+                        try:
+                            if "jax" not in mods[k][1]:
+                                jcode = impl.gen_python(halves[k], schemes=["explicit_euler"], backend="jax", missing_values=req if req else None)
+                                mods[k][1]["jax"] = (cback.jax_module(jcode), impl.export_functions(jcode))
+                            jns, jfns = mods[k][1]["jax"]
+                            with np.errstate(all="ignore"):
+                                jr = cback.call_jax(jns["rhs"], jfns["rhs"]["args"], pt["t"], st, ps, missing=ms)
+                                jm = cback.call_jax(jns["monitor_values"], jfns["monitor_values"]["args"], pt["t"], st, ps, missing=ms)
+                                je = cback.call_jax(jns["explicit_euler"], jfns["explicit_euler"]["args"], pt["t"], st, ps, dt=dt, missing=ms)
+                            for what, jv, nv in (("rhs", jr, rv), ("monitor_values", jm, mv), ("explicit_euler", je, ev)):
+                                if jv.shape != nv.shape or not all(close(float(a_), float(b_), S, 1e-8) or (a_ != a_ and b_ != b_) or not np.isfinite(b_)
+                                                                   for a_, b_ in zip(jv, nv)):
+                                    fail(f"{k} of {cname!r}: the jax module's {what} gives {jv.tolist()}, the numpy module's {nv.tolist()}",
+                                         component=cname, inputs=pt, backend="jax")
+                            rep.count("half_points_compared_jax")
+                        except Exception as ex:  # noqa: BLE001
+                            fail(f"{k} of {cname!r}: the jax module raises {ex!r}", component=cname, inputs=pt, backend="jax")
                     rep.count("half_points_compared")
             if failing:
                 break
@@ -210,6 +231,23 @@ def main(argv=None):
     rng = random.Random(a.seed)
     gen = lang.Gen(rng, max_depth=2, p_cond=0.08, funcs=["exp", "cos", "sin", "atan", "log", "sqrt", "abs"], allow_mod=False)
     n = a.n or (24 if a.tier == "quick" else 500)
+    # directed: variables whose names the Python printers rename (keywords) cross the split in both directions, as a state, as an
+    # intermediate and as a parameter's reader
+    import textmodel
+    for text in ('states("A", lambda=0.5, x=1)\nparameters("A", k=2)\nstates("B", y=0.25)\nparameters("B", g=1.5)\n'
+                 'expressions("A")\nglobal = k*lambda + x\ndlambda_dt = -k*lambda + y\ndx_dt = global - x\n'
+                 'expressions("B")\nrate = g*lambda - global\ndy_dt = rate - y\n',
+                 'states("Gate", m=0.5)\nparameters("Gate", tau=2)\nstates("Membrane", V=0.25)\nparameters("Membrane", g=1.5)\n'
+                 'expressions("Gate")\nis = 1/(1 + exp(-V))\ndm_dt = (is - m)/tau\n'
+                 'expressions("Membrane")\nnonlocal = g*m*is\ndV_dt = -nonlocal*V + cos(time)\n'):
+        c_ = pipeline.Case(drv, text)
+        if c_.err is not None:
+            rep.violation(f"directed model rejected: {c_.err}", {"kind": "direct", "text": text})
+            continue
+        m_ = textmodel.model_from_items(c_.captured)
+        k_ = core.guarded(rep, text, check_model, rep, drv, gen, rng, m_, text, c_, with_jax=True, direct_only=True)
+        rep.case(key=text, nontrivial=True)
+        rep.count("splits", k_ or 0)
     for i in range(n):
         got = family.new_case(drv, rng, gen, rep, n_comps=rng.choice([2, 2, 3]), n_states=rng.choice([2, 3, 4]),
                               n_inters=rng.choice([2, 3, 4, 5]), n_params=rng.choice([1, 2, 3]), p_unused=0.15, self_dep=0.5)
@@ -235,7 +273,7 @@ def main(argv=None):
     drv.close()
     return rep.finish(
         level="proof",
-        rule="random models with 2-3 components (names chosen so that some contain others: INa / INaCa, A / AB, X / X-gate), intermediates "
+        rule="two directed models in which a state / an intermediate named by a Python keyword (lambda, global, is, nonlocal: the printers rename them) crosses the split (values only); random models with 2-3 components (names chosen so that some contain others: INa / INaCa, A / AB, X / X-gate), intermediates "
              "spread over components; every component is split off in turn; both halves generated with remove_unused off and on, each fed "
              "the full model's values at 2 points; non-trivial = at least two components could be split",
         trusted_base=["Coq 8.16.1 kernel", "extraction + ocaml/driver.ml", "harness skeleton exporter"],
